@@ -4194,6 +4194,7 @@ class Session(_SessionClassMethods, EventTarget):
                 merged = mapper.class_manager.new_instance()
                 merged_state = attributes.instance_state(merged)
                 merged_state.key = key
+                merged_state.identity_token = key[2]
                 self._update_impl(merged_state)
                 new_instance = True
 
